@@ -12,9 +12,11 @@ FUNCTIONS = ["gcmpy.gcm_algorithm.gcm_algorithm_fast.GCMAlgorithmFast.random_clu
              "gcmpy.motif_generators.clique_motif", "cycle_motif", "diamond_motif", "iteration_utilities.grouper (real C extension)"]
 STUBS = ["random.shuffle -> fresh symbolic permutation (Distinct ints); slots are If-chains over it, no fork for the edge-list generators"]
 BOUNDS = {
-    "quick": "N<=3 vertices, entries 0..2, 1-3 joint-degree columns (N=4 with entries 0..1 for 4-vertex motifs); 8 fast/network motif "
-             "configurations and 8 custom-motif configurations (bare edge, 2-edge path, triangle, 2-orbit hub, diamond with per-edge "
-             "names, mixtures); direct construction and the factory with enum and string type; network variant N<=3",
+    "quick": "N<=3 vertices, entries 0..2, 1-3 joint-degree columns (N=4 with entries 0..1 for 4-vertex motifs); 11 fast/network motif "
+             "configurations (incl. topologies with equal edge counts) and 13 custom-motif configurations (bare edge with bare / tuple name, 2-edge "
+             "path, triangle, 2-orbit hub, multi-orbit motif followed by another motif, orbits out of column order, diamond with per-edge names, "
+             "mixtures); direct construction and the factory with enum and string type; network variant N<=3; a second call on the same "
+             "generator object with an independent sequence",
     "thorough": "N<=4 with entries 0..2 and N=5 with entries 0..2 for single-column configurations; network variant N<=4 entries 0..1",
 }
 OUTSIDE = "N>5, entries >3, more than 3 joint-degree columns; joint degree sequences violating the handshake precondition"
@@ -29,8 +31,9 @@ def configs(tier):
     q = tier == "quick"
     cfgs = []
 
-    def add(alg, motif, N, D, via="direct"):
-        cfgs.append({"name": f"{alg}-{motif}-N{N}D{D}-{via}", "alg": alg, "motif": motif, "N": N, "D": D, "via": via})
+    def add(alg, motif, N, D, via="direct", history=False):
+        cfgs.append({"name": f"{alg}-{motif}-N{N}D{D}-{via}" + ("-2ndcall" if history else ""), "alg": alg, "motif": motif, "N": N, "D": D, "via": via,
+                     "history": history})
 
     for motif in ("k2", "k2k3", "k3", "c3k2", "star3k2", "one"):
         add("fast", motif, 3, 2)
@@ -45,6 +48,18 @@ def configs(tier):
     add("motifs", "diamond5", 4, 1)
     add("motifs", "hub2", 3, 2, "enum")
     add("motifs", "bare", 3, 2, "str")
+    add("fast", "k3c3", 3, 1)
+    add("fast", "k2k2", 3, 1)
+    add("fast", "k2k3k2", 2, 2)
+    for motif in ("bare-t", "hub2+tri", "hub2+bare", "tri+tri2", "hub2-rev+bare"):
+        add("motifs", motif, 3, 1)
+    add("motifs", "hub2+tri", 2, 3)
+    # a second call on the same generator object (state carried between calls)
+    add("fast", "k2", 3, 2, history=True)
+    add("fast", "k2k3", 3, 1, "enum", history=True)
+    add("motifs", "hub2", 3, 1, history=True)
+    add("motifs", "bare", 3, 2, history=True)
+    add("network", "k2", 3, 1, history=True)
     add("network", "k2", 3, 2)
     add("network", "k3", 3, 1)
     add("network", "k2", 3, 1, "str")
